@@ -197,3 +197,24 @@ Theorem C14_send_bad_type : forall target k msg src q, ~ In 32 k -> ~ Forall tag
   decode_ctcp (mk_event src (ev_command q) (ev_params q)) = Ok None.
 Proof. exact send_bad_type. Qed.
 Print Assumptions C14_send_bad_type.
+
+(* ---- histories ---- *)
+
+(* Any sequence of incoming events: the answers are at most one per PRIVMSG in it, every one
+   a source-less NOTICE answering a sourced PRIVMSG of the sequence. *)
+Theorem C14_history : forall v inbox outs, connected v = true ->
+  stage_all (default_table v) inbox = Ok outs ->
+  (length outs <= length (filter (fun e => streqb (ev_command e) PRIVMSG) inbox))%nat /\
+  Forall (fun o => ev_command o = NOTICE /\ ev_source o = None /\
+                   exists e name, In e inbox /\ ev_command e = PRIVMSG /\ ev_source e = Some name /\
+                                  is_answer_to name o) outs.
+Proof. exact stage_all_discipline. Qed.
+Print Assumptions C14_history.
+
+(* Two clients alone on a network (Spec/CtcpSpec.v `volley`): whatever arrives at A, however
+   many rounds of mutual answering are allowed, the exchange ends after A's own answers. *)
+Theorem C14_two_clients : forall va vb na nb inbox rounds, connected va = true -> (2 <= rounds)%nat ->
+  exists outs, stage_all (default_table va) inbox = Ok outs /\
+    volley rounds va vb na nb inbox = Ok (outs, true).
+Proof. exact volley_ends. Qed.
+Print Assumptions C14_two_clients.
